@@ -403,7 +403,7 @@ func ParseSpendPolicy(s string) (SpendPolicy, error) {
 			}
 			consume(']')
 			consume(',')
-			sigsRequired := parseInt(8)
+			sigsRequired := parseInt(64)
 			return SpendPolicy{
 				PolicyTypeUnlockConditions{
 					Timelock:           timelock,
